@@ -485,7 +485,12 @@ def conformance_dataset(col, ds, tier):
             sim_results.append((_norm(out), log))
         # the same runs through the unmodified requests stack and sockets
         httpsim.uninstall()
-        sock = httpsim.SocketServer(srv)
+        try:
+            sock = httpsim.SocketServer(srv)
+        except OSError as exc:
+            # no loopback interface in this sandbox: say so, do not guess
+            col.ev(len(runs), 0, "conformance-skipped/" + type(exc).__name__)
+            return
         url = "http://127.0.0.1:%d/ds" % sock.port
         for devs, (sim_out, sim_log) in zip(runs, sim_results):
             out, log, _ = run_history(url, chunks, srv, devs)
